@@ -8,7 +8,7 @@ PROP = "C12"
 # (binary64).  |impl - model| <= C * 2^-24 * magnitude, with C per operation kind (number of binary32 operations on the
 # longest path x 4, plus the transcendental calls); `arc`/`det`/`dpos`/`blor` involve binary32 coordinates (R*sin, rounding of
 # crystal positions to 0.001 mm) whose error is relative to the ring radius, hence the larger constants.
-C_KIND = {"coord": 64.0, "lor": 64.0, "tofb": 64.0, "det": 256.0, "ovl": 64.0, "arc": 8192.0, "dpos": 65536.0, "blor": 4096.0}
+C_KIND = {"coord": 64.0, "lor": 64.0, "tofb": 64.0, "det": 256.0, "ovl": 64.0, "arc": 8192.0, "dpos": 64.0, "blor": 4096.0}
 
 
 def _f(bits):
